@@ -7,6 +7,7 @@ import (
 	"sort"
 	"strings"
 	"sync"
+	"sync/atomic"
 	"time"
 
 	"verifharness/internal/core"
@@ -123,6 +124,9 @@ func (p c05) RunUnit(idx int, tier string, seed int64, focus map[string]string, 
 	o := dump.Options{}
 	table := make([]string, len(qs))
 	for i, q := range qs {
+		if i%16 == 0 {
+			rep.Mark(idx, 0, i, 0)
+		}
 		table[i] = canon(q, env.Run(q), o)
 	}
 	resolved := 0
@@ -162,6 +166,7 @@ func (p c05) RunUnit(idx int, tier string, seed int64, focus map[string]string, 
 			}(g)
 		}
 		cw.Wait()
+		rep.Mark(idx, 1, 0, 0)
 		rep.Eval(int64(cfg.Goroutines * 12))
 		rep.Count("cold_start_operations", int64(cfg.Goroutines*12))
 	}
@@ -177,12 +182,40 @@ func (p c05) RunUnit(idx int, tier string, seed int64, focus map[string]string, 
 	for g := range seeds {
 		seeds[g] = rnd.Int63()
 	}
+	// Progress for the driver's no-progress watchdog: every goroutine publishes its own
+	// operation count in its own slot (an atomic store read only by the reporter below -
+	// this orders a worker before the reporter, never two workers with each other).
+	progress := make([]atomic.Int64, cfg.Goroutines)
+	stopProgress := make(chan struct{})
+	progressDone := make(chan struct{})
+	go func() {
+		defer close(progressDone)
+		tk := time.NewTicker(250 * time.Millisecond)
+		defer tk.Stop()
+		last := int64(-1)
+		for {
+			select {
+			case <-stopProgress:
+				return
+			case <-tk.C:
+				var sum int64
+				for i := range progress {
+					sum += progress[i].Load()
+				}
+				if sum != last {
+					last = sum
+					rep.Mark(idx, 2, int(sum), 0)
+				}
+			}
+		}
+	}()
 	for g := 0; g < cfg.Goroutines; g++ {
 		wg.Add(1)
 		go func(g int) {
 			defer wg.Done()
 			r := rand.New(rand.NewSource(seeds[g]))
 			for i := 0; i < cfg.OpsPerG; i++ {
+				progress[g].Store(int64(i))
 				qi := r.Intn(len(qs))
 				// whole-file / whole-path queries touch the most shared state: a third of the load
 				if len(heavy) > 0 && r.Intn(3) == 0 {
@@ -200,6 +233,8 @@ func (p c05) RunUnit(idx int, tier string, seed int64, focus map[string]string, 
 		}(g)
 	}
 	wg.Wait()
+	close(stopProgress)
+	<-progressDone
 	// ---- merge (single threaded from here on)
 	var all []opRec
 	for _, r := range recs {
